@@ -472,9 +472,16 @@ func init() {
 
 func init() {
 	properties["C12"] = &property{
-		explanation: "Decides the representation mechanisms behind C12 for the 8 map-backed graph types of graph/simple and graph/multi, uid.Set and the 30 iterator types of graph/iterator, in both the default and the safe build: GRAPHINV.converse — every adjacency mutation is translated into an effect (ADD/DEL/DELROW/DELCOL/PRUNE on from/to or edges/lines, through local aliases and map-literal arms; an untranslatable mutation fails the check as an unrecognised idiom) and each method's effect set is closed under the converse, so forward and reverse adjacency stay mirror images; GRAPHINV.remove — RemoveNode deletes the key, the row and the column of every relation and releases the ID; GRAPHINV.ids — a new node key is followed on all paths by Use, Release is preceded by the key's deletion, line insertions are followed by Use on the line pool; GRAPHINV.uid — in uid.Set every update of used executes together with the dual update of free ('fresh IDs never collide with live ones'); GRAPHINV.iter — every path of Next() that can return true advances a cursor field read by Len(); TWIN.sibstate — each iterator method and the corresponding method of its Weighted sibling type (all build configurations' files) make the same assignments to the cursor/length/current fields; CONFIG — graph/iterator, simple and multi type-check with one API under safe. Does NOT decide dense-matrix graphs, iterator Reset, panics leaving the graph unchanged, Undirect/Copy adapters.",
+		explanation: "Decides the representation mechanisms behind C12 for the 8 map-backed graph types of graph/simple and graph/multi, uid.Set and the 30 iterator types of graph/iterator, in both the default and the safe build: GRAPHINV.converse — every adjacency mutation is translated into an effect (ADD/DEL/DELROW/DELCOL/PRUNE on from/to or edges/lines, through local aliases and map-literal arms; an untranslatable mutation fails the check as an unrecognised idiom) and each method's effect set is closed under the converse, so forward and reverse adjacency stay mirror images; GRAPHINV.remove — RemoveNode deletes the key, the row and the column of every relation and releases the ID; GRAPHINV.ids — a new node key is followed on all paths by Use, Release is preceded by the key's deletion, line insertions are followed by Use on the line pool; GRAPHINV.uid — in uid.Set every update of used executes together with the dual update of free ('fresh IDs never collide with live ones'); GRAPHINV.iter — every path of Next() that can return true advances a cursor field read by Len(); TWIN.sibstate — each iterator method and the corresponding method of its Weighted sibling type (all build configurations' files) make the same assignments to the cursor/length/current fields; CONFIG — graph/iterator, simple and multi type-check with one API under safe; GRAPHINV.panicorder — in the 22 container methods of graph/simple and graph/multi that panic explicitly, none of the 26 panics is reachable after a write to the receiver's state ('documented panics leave the graph unchanged'); GRAPHINV.absent — the dense-matrix graphs compare a weight with the absent marker only through the NaN-aware isSame, so From/To/HasEdge*/Edges agree for every absent value; GRAPHINV.iterreset — a value-receiver method that consumes the iterator held by its receiver resets it before returning. Does NOT decide the dense-matrix graphs' index arithmetic, iterator Reset implementations, panics raised inside callees, Undirect/Copy adapters.",
 		assumptions: commonAssumptions,
 		run: func(tier string, res *core.Result) {
+			for _, c := range []core.Config{{}, {Tags: "safe"}} {
+				od := graphinv.RunOrder(c)
+				od.Floor("explicit_panics", 20)
+				od.Floor("isSame_absent_comparisons", 9)
+				od.Floor("receiver_iterator_consumers", 1)
+				res.Merge(od)
+			}
 			for _, c := range []core.Config{{}, {Tags: "safe"}} {
 				g := graphinv.Run(c)
 				g.Floor("map_backed_graph_types", 8)
@@ -594,6 +601,8 @@ func dump(argv []string) {
 			pk = []string{"./..."}
 		}
 		res = config.Run(config.Matrix(tier), pk)
+	case "graphorder":
+		res = graphinv.RunOrder(def)
 	case "global":
 		res = globalx.Run(def, core.Pkgs(argv[1:]...), globalx.Options{})
 	case "arms":
